@@ -2,7 +2,7 @@
 import struct
 
 from mirlib import AnchorMissing, describe_call, describe_operand, describe_place, describe_rvalue, dom_guards, guards, _suffix_match
-from rules.common import panic_sites, where
+from rules.common import aggregates, panic_sites, where
 
 META = {
     "explanation": (
@@ -156,11 +156,43 @@ def run(ctx):
         amb = [c for c in bd.calls if c.name == "are_ambiguous"]
         if len(amb) != 1:
             raise AnchorMissing("PlaneBuilder::build: are_ambiguous call")
-        sk = [c for c in bd.calls if c.name == "skip"]
-        r.check(len(sk) == 1 and describe_operand(bd, sk[0].args[1]).replace("AddWithOverflow(", "Add(").startswith("Add(") and ", 1)" in describe_operand(bd, sk[0].args[1]), "build/inner-loop-skips-i+1", sk[0].loc() if sk else where(bd), "inner iterator = routes.skip(i + 1): every unordered pair is tested once",
-                "the inner loop does not start at i + 1: %s" % (describe_operand(bd, sk[0].args[1]) if sk else "no skip"))
-        nxt = [c for c in bd.calls if c.name == "next" and bd.reaches(c.block, {amb[0].block})]
+        # every unordered pair of routes is tested: two nested iterations, the inner one started afresh for every outer element and covering
+        # every later element (whatever iterator adaptors or index ranges spell it)
+        nxt = [c for c in bd.calls if c.name == "next" and bd.reaches(c.block, {amb[0].block}) and bd.reaches(amb[0].block, {c.block})]
         r.check(len(nxt) >= 2, "build/doubly-nested", where(bd), "are_ambiguous is called inside two nested iterations")
+        if len(nxt) >= 2:
+            outer = [c for c in nxt if all(bd.dominates(c.block, x.block) for x in nxt)]
+            inner = [c for c in nxt if c not in outer]
+            if len(outer) != 1 or not inner:
+                raise AnchorMissing("PlaneBuilder::build: cannot tell the outer from the inner iteration")
+            it = bd.copy_root(inner[-1].args[0])
+            # the cursor that is really advanced: through `into_iter` (identity on an iterator) and `by_ref` / `&mut` (a borrow of another cursor)
+            for _ in range(6):
+                ds = bd.defs.get(it, ())
+                if len(ds) == 1 and ds[0][0] == "call" and ds[0][2].name in ("into_iter", "by_ref") and ds[0][2].args:
+                    nx = bd.copy_root(ds[0][2].args[0])
+                    if nx is None or nx == it:
+                        break
+                    it = nx
+                else:
+                    break
+            defs = [d for d in bd.defs.get(it, ())]
+            dblocks = {d[1] for d in defs}
+            fresh = bool(dblocks) and all(bd.dominates(outer[0].block, b_) and b_ != outer[0].block and bd.reaches(b_, {outer[0].block}) for b_ in dblocks)
+            r.check(fresh, "build/inner-iteration-restarts-for-every-route", inner[-1].loc(), "the inner iterator is built inside the outer loop: every route is compared with the routes after it",
+                    "the inner iteration is not started afresh for each outer route (one cursor shared by all outer iterations): after the first route the inner loop is empty, so only pairs with the first route are tested")
+            src = describe_operand(bd, inner[-1].args[0]).replace("AddWithOverflow(", "Add(").replace(").0", ")")
+            sk = [c for c in bd.calls if c.name == "skip" and bd.dominates(outer[0].block, c.block)]
+            if sk:
+                off = describe_operand(bd, sk[0].args[1]).replace("AddWithOverflow(", "Add(")
+                r.check(off.startswith("Add(") and ", 1)" in off and "<Some>" in off, "build/inner-loop-skips-i+1", sk[0].loc(), "inner iterator = routes.skip(i + 1): every unordered pair is tested once",
+                        "the inner loop does not start at i + 1: %s (a route compared with itself is always `ambiguous`; starting later leaves pairs untested)" % off)
+            else:
+                rng = [a for a in aggregates(bd, "core::ops::range::Range") if bd.dominates(outer[0].block, a[0])]
+                offs = [describe_operand(bd, a[2][0]).replace("AddWithOverflow(", "Add(") for a in rng]
+                distinct = any(d.startswith(("Ne(", "Lt(", "Gt(")) or (d.startswith("Eq(") and l == "false") for d, l, _ in dom_guards(bd, amb[0].block))
+                r.check(any(o.startswith("Add(") and ", 1)" in o for o in offs) or distinct, "build/inner-loop-skips-i+1", inner[-1].loc(), "the inner iteration starts after the outer element, or equal indices are excluded",
+                        "the inner iteration neither starts at i + 1 nor excludes i == j (inner source: %s)" % src[:80])
         a0, a1 = describe_operand(bd, amb[0].args[0]), describe_operand(bd, amb[0].args[1])
         r.check(a0 != a1 and "<Some>" in a0 and "<Some>" in a1, "build/compares-outer-with-inner", amb[0].loc(), "are_ambiguous(p, q) with p from the outer and q from the inner iteration")
         be = bd.bool_edges(amb[0])
